@@ -23,10 +23,15 @@ HISTORY part (E2 style), keys history/<kind>/...:
    measure A, render B, measure B}: every render must equal a fresh frame with a fresh copy, and the
    object must be unchanged afterwards (history/<kind>/argument-mutated).
 
-Measured (shared machine, load average 30-150; CPU seconds are the stable number):
-  quick    254,714 cases (5,896 of them histories), 1,362 distinct outcomes, ~150-170 CPU-s
-           (wall 43-47 s with 6 workers under load)
-  thorough ~2.54 M cases (110,646 histories, ~95 CPU-s of the ~2,200 CPU-s total)
+Columns: complete product column_first x right_to_left x equal x expand x align x item counts
+0..2*columns+1 x widths giving 1..4 columns; every item is placed in its grid cell by an independent
+row-first / column-first fill (mirrored for right_to_left): keys columns/grid-position/<mode>,
+columns/grid-edge/<mode>.
+
+Measured (shared machine, load average 30-200; CPU seconds are the stable number):
+  quick    262,416 cases (54,336 Columns, 5,896 histories), 1,451 distinct outcomes, ~173 CPU-s
+           (wall 154 s with 16 workers at load average 200; 40-50 s at load 30)
+  thorough ~2.6 M cases (620,544 Columns, 110,646 histories), ~2,300 CPU-s
 """
 import io
 import itertools
